@@ -36,8 +36,9 @@ RULE = ("random screens (1-14 rows quick / 1-30 thorough, arity 1-3, small name/
         "Checklist classes generated in every run: class.temporaries (attributes / to_screen / unique filter read from temporary get_plate(p) / subset(m) "
         "views of equal size, only the value kept), class.instalments (subset(m1).subset(m2) = subset(composed); a.combine(b).combine(c) = concat([a,b,c]) = "
         "subset(union), on every property by introspection and after to_screen), class.int-width (parents with 127/128/255/256/257 plates and treatment ids: "
-        "all plates, rows with large ids, unique filter, to_screen). Only clauses of the property text give a concrete replay; exception classes, the "
-        "None-for-empty convention, malformed masks / columns and values owned by other properties are compared with model and reference (tie). "
+        "all plates, rows with large ids, unique filter, to_screen). Only clauses of the property text can make the check fail; derived scalar properties, mappings reported by views, exception classes, "
+        "the None-for-empty convention, malformed masks / columns and values owned by other properties are compared with model and reference and reported as "
+        "ADVISORIES (res.advise), which never affect the result. "
         "Non-trivial: tree with >= 3 operations incl. a nested subset or unique filter, evaluated without error on a screen of >= 3 rows.")
 
 ATTRS = ["plate_ids", "sample_ids", "treatment_ids", "sample_names", "treatment_names", "treatment_doses", "observations", "observation_mask"]
@@ -117,13 +118,12 @@ def ste_close(a, b):
 
 
 def soft(res, where, case, impl, ref):
-    """Something the property TEXT does not state (behaviour on malformed input, exact exception classes, None-vs-empty conventions, values that
-    belong to other properties) differs from the reference: reported like a model/implementation disagreement -- broken tie,
-    `no-failing-input-found` -- never as a violation with a concrete replay (HARDENING_CHECKLIST item 14)."""
+    """Behaviour the property TEXT does not state -- derived scalar properties, mappings reported by views, exception classes, the None-for-empty
+    convention, malformed masks / columns, values owned by other properties (Plate.merge, the effect means) -- differs from the reference: an
+    ADVISORY (res.advise), printed and written into the evidence; it never makes the check fail."""
     if res is None:
         return
-    res.count("reference-only." + where)
-    res.disagree("C14:reference:" + where, {"case": case}, str(impl)[:600], str(ref)[:600])
+    res.advise("outside the text of C14: " + where, case, str(impl)[:600], str(ref)[:600], signature="C14:ext:" + where)
 
 
 class Absent(Exception):
@@ -353,7 +353,7 @@ class Eval:
         if not self.check_props(v, idx):
             return
         if v.treatment_mapping is not self.screen.treatment_mapping and v.screen is self.screen:
-            self.fail("view does not report the parent's mapping", "other object", "parent's")
+            self.soft("shared:treatment_mapping-object", "other object", "parent's")
 
     def derived(self, name, idx):
         """value of a derived property recomputed from the parent's rows at `idx`; ('raises', cls) where the view has to raise"""
@@ -402,15 +402,12 @@ class Eval:
                     self.soft("derived:" + name + ":exception-class", got, want)       # which exception an inapplicable property raises
                     continue
                 if got != (want[0], canon(want[1]) if want[0] == "ok" else want[1]):
-                    self.fail("derived property of a view differs from its value on the parent's selected rows", {"property": name, "got": got},
-                              want, signature="C14:derived:" + name)
-                    return False
+                    self.soft("derived:" + name, {"property": name, "got": got}, want)       # derived scalars are not named in the text
                 continue
             if name in SHARED:
                 pst, pval = (("ok", self.screen.control_treatment_name) if name == "control_treatment_name" else self.pvals[name])
                 if st != "ok" or not (val is pval or canon(val) == canon(pval)):
-                    self.fail("view does not report the parent's " + name, (st, str(val)[:80]), "the parent's", signature="C14:shared:" + name)
-                    return False
+                    self.soft("shared:" + name, (st, str(val)[:80]), "the parent's")
                 continue
             if name not in self.pvals:
                 if self.res is not None:
@@ -852,6 +849,10 @@ def extras(E, raw, res, case, toks, queue, do_unique, do_plates):
 PER_ROW = ["plate_ids", "sample_ids", "treatment_ids", "sample_names", "treatment_names", "treatment_doses", "observations", "observation_mask"]
 
 
+CORE = ("selection_vector", "plate_ids", "sample_ids", "treatment_ids", "sample_names", "treatment_names", "treatment_doses", "observations",
+        "observation_mask", "single_treatment_effects")       # the selection and the per-experiment attributes: the text of C14
+
+
 def view_props(v):
     """selection vector + every property of the view's class, canonical"""
     out = {"selection_vector": [bool(b) for b in v.selection_vector]} if hasattr(v, "selection_vector") else {}
@@ -938,6 +939,10 @@ def instalments_case(res, case):
             E.check_view([gname], v, exp)
             got = view_props(v)
             diff = sorted(k for k in set(ref) & set(got) if ref[k] != got[k])      # Plate has plate_id / plate_name, ScreenSubset has not
+            ext = [k for k in diff if k not in CORE]
+            diff = [k for k in diff if k in CORE]
+            if ext:
+                soft(res, "instalments:" + gname + ":derived", case, {"how": nm, "properties": ext}, "equal")
             if diff:
                 res.fail("a view reached in instalments differs from the view reached in one call (by introspection)", case,
                          {"how": nm, "vs": ref_name, "properties": diff, "got": str(got.get(diff[0]))[:200]}, str(ref.get(diff[0]))[:200],
@@ -984,6 +989,15 @@ def int_width_case(res, case, queue=None):
     E.recheck_all()
 
 
+def guarded(f, res, case, *a):
+    """an exception escaping from a view operation on a valid screen with valid masks is a violation (the view the text demands is not produced)"""
+    try:
+        f(res, case, *a)
+    except Exception as e:      # noqa: BLE001
+        res.fail("a view operation on a valid screen with valid masks raises", case, "%s: %s" % (type(e).__name__, e), "a view",
+                 signature="C14:raises:" + case["kind"])
+
+
 def checklist_classes(ctx, res, rng, queue):
     n_max = 10 if ctx.tier == "quick" else 24
     for t in range(ctx.scale(10, 120)):
@@ -996,12 +1010,12 @@ def checklist_classes(ctx, res, rng, queue):
         case = {"kind": "temporaries", "raw": raw, "masks": equal_size_masks(rng, n, 5)}
         res.evaluations += 1
         res.count("class.temporaries")
-        temporaries_case(res, case)
+        guarded(temporaries_case, res, case)
         m1 = gen_mask(rng, n)
         case = {"kind": "instalments", "raw": raw, "m1": m1, "m2": gen_mask(rng, sum(m1)), "ms": [gen_mask(rng, n) for _ in range(3)]}
         res.evaluations += 1
         res.count("class.instalments")
-        instalments_case(res, case)
+        guarded(instalments_case, res, case)
     sizes = [127, 128, 255, 256, 257]
     picks = sizes if not (ctx.tier == "quick" and ctx.mode != "search") else [257, rng.choice([127, 128, 255, 256])]     # 257 plates: ids 0..256 cross every boundary
     for m in picks:
@@ -1009,7 +1023,7 @@ def checklist_classes(ctx, res, rng, queue):
         res.evaluations += 1
         res.count("class.int-width")
         res.count("class.int-width.%d" % m)
-        int_width_case(res, case, queue)
+        guarded(int_width_case, res, case, queue)
 
 
 
@@ -1085,7 +1099,13 @@ def run(ctx, res):
     if ctx.driver is not None:
         got = ctx.driver.ask(lines)
         for l, e, g, c in zip(lines, expect, got, where):
-            if e != g:
+            if e != g and (l.startswith("vderived ") or g.startswith("err:") or g.startswith("view-err:")):
+                # derived scalar properties, and what the code does where the MODEL says the operation is inapplicable / malformed (wrong-length
+                # mask, absent observed view, ...), are outside the text of C14 (refusing views of another parent is an oracle of its own): advisory.
+                # An operation the model performs but the code refuses stays a broken tie.
+                res.advise("outside the text of C14: model and implementation disagree (%s)" % l.split(" ")[0], {"line": l[:1500]}, e[:600], g[:600],
+                           signature="C14:ext-tie:" + l.split(" ")[0] + (":error" if not l.startswith("vderived ") else ""))
+            elif e != g:
                 res.disagree("C14:" + l.split(" ")[0], {"line": l[:1500], "tree": c.get("tree", c.get("cols"))}, e[:600], g[:600])
         res.traces_validated += len(lines)
 
@@ -1102,13 +1122,13 @@ def replay(ctx, case, res):
         check_unique_direct(res, case, cols, got, out)
         return
     if case.get("kind") == "temporaries":
-        temporaries_case(res, case)
+        guarded(temporaries_case, res, case)
         return
     if case.get("kind") == "instalments":
-        instalments_case(res, case)
+        guarded(instalments_case, res, case)
         return
     if case.get("kind") == "int-width":
-        int_width_case(res, case)
+        guarded(int_width_case, res, case)
         return
     E, v, err = run_tree(case["raw"], case["tree"], res, case, case.get("lseed", 0))
     if v is not None and v.screen is E.screen:
